@@ -7,6 +7,7 @@ import tempfile
 
 from vlib import core
 from checks import c10_gen as gen
+from checks import c10_sites
 
 META = {
     "harness_bins": ["c10"],
@@ -59,6 +60,11 @@ def run_pipeline(lines, timeout=40, shards=None):
     return rc, res, err
 
 
+def skey(key):
+    """keys are matched against `known: property=C10 key=<no whitespace>` lines"""
+    return re.sub(r"[^A-Za-z0-9_.:/+\-]+", "_", key).strip("_")
+
+
 def norm_msg(s, n=70):
     s = re.sub(r"0x[0-9a-fA-F]+", "#", s)
     s = re.sub(r"\d+", "#", s)
@@ -81,9 +87,13 @@ def simplify_fn(name):
 _GDB_CACHE = {}
 
 
+TYPE_TRAVERSAL = re.compile(r"^(TypeF|RecordRowsF|EnumRowsF|RecordRowF|EnumRowF|UnifType|UnifRecordRows|UnifEnumRows|UnifRecordRow|UnifEnumRow|"
+                            r"AstAlloc|Type|RecordRows|EnumRows|RecordRow|EnumRow|reporting|typecheck|unif|Box)::|^to_type$|::to_type$|::clone$|::subst$")
+
+
 def overflow_signature(line):
-    """Re-run one crashing case under gdb and return a signature made of the functions on top of
-    the stack when the guard page is hit (set of distinct nickel frames among the top 60)."""
+    """Re-run one crashing case under gdb and classify the unbounded recursion by the functions
+    that repeat on top of the stack when the guard page is hit."""
     if line in _GDB_CACHE:
         return _GDB_CACHE[line]
     sig = "unknown"
@@ -93,17 +103,22 @@ def overflow_signature(line):
     try:
         rc, out = core.sh(["gdb", "-q", "-batch", "-ex", "set pagination off", "-ex", "set print thread-events off",
                            "-ex", "handle SIGSEGV stop nopass", "-ex", "run --worker < %s > /dev/null" % path,
-                           "-ex", "bt 60", core.harness_bin("c10")], timeout=300)
-        fns = []
+                           "-ex", "bt 80", core.harness_bin("c10")], timeout=300)
+        count = {}
         for m in re.finditer(r"^#\d+\s+(?:0x[0-9a-f]+ in )?(.+?) \(", out, flags=re.M):
             fn = m.group(1)
             if "nickel_lang" not in fn and "malachite" not in fn and "serde" not in fn and "toml" not in fn and "saphyr" not in fn:
                 continue
-            s = simplify_fn(fn)
-            if s not in fns:
-                fns.append(s)
-        if fns:
-            sig = "+".join(sorted(fns)[:5])
+            sfn = simplify_fn(fn)
+            count[sfn] = count.get(sfn, 0) + 1
+        cyc = sorted(k for k, v in count.items() if v >= 3)
+        if cyc:
+            if any("Thunk::eq" in k for k in cyc):
+                sig = "thunk-eq"
+            elif all(TYPE_TRAVERSAL.search(k) for k in cyc):
+                sig = "infinite-type"
+            else:
+                sig = "+".join(cyc[:4])
     finally:
         os.unlink(path)
     _GDB_CACHE[line] = sig
@@ -124,23 +139,30 @@ def hang_signature(line, wait=12):
         p.stdin.flush()
         time.sleep(wait)
         samples = []
-        for _ in range(3):
-            if p.poll() is not None:
+        for _ in range(8):
+            if p.poll() is not None or len(samples) >= 3:
                 break
             rc, out = core.sh(["gdb", "-q", "-batch", "-p", str(p.pid), "-ex", "set pagination off", "-ex", "thread apply all bt 40"], timeout=120)
-            fns = set()
-            for m in re.finditer(r"^#\d+\s+(?:0x[0-9a-f]+ in )?(.+?) \(", out, flags=re.M):
-                fn = m.group(1)
-                if "nickel_lang" in fn and "c10::" not in fn:
-                    fns.add(simplify_fn(fn))
-            if fns:
-                samples.append(fns)
-            time.sleep(1.5)
+            # the busy thread: the one with nickel frames; keep its innermost distinct nickel functions
+            best = []
+            for th in re.split(r"^Thread \d+ ", out, flags=re.M):
+                fns = []
+                for m in re.finditer(r"^#\d+\s+(?:0x[0-9a-f]+ in )?(.+?) \(", th, flags=re.M):
+                    fn = m.group(1)
+                    if "nickel_lang" in fn and "c10::" not in fn:
+                        sfn = simplify_fn(fn)
+                        if sfn not in fns:
+                            fns.append(sfn)
+                if len(fns) > len(best):
+                    best = fns
+            if best and not any("load_stdlib" in f or "parse_nickel" in f or "stdlib" in f for f in best):
+                samples.append(set(best[:10]))
+            time.sleep(3)
         if samples:
             common = set.intersection(*samples)
-            common = {f for f in common if not f.startswith("Program") and "prog_stage" not in f}
+            common = {f for f in common if not re.match(r"^(Ident|Interner|InternerInner|LocIdent)::", f)}
             if common:
-                sig = "+".join(sorted(common)[:5])
+                sig = "+".join(sorted(common)[:6])
     finally:
         p.kill()
         p.wait()
@@ -148,51 +170,74 @@ def hang_signature(line, wait=12):
     return sig
 
 
-def findings_of(line, res):
-    """[(key, text)] for one case result; also returns (stages dict, resource note)."""
+HUGE_LITERAL = re.compile(rb"[0-9][eE][+-]?[0-9]{6,}")
+
+
+def findings_of(line, res, cls="", origin=""):
+    """([(key, text)], stages dict, resource note) for one case result."""
     out = []
     stages = {}
     resource = None
+    head, _, hx = line.partition("\t")
+    fmt = head.split(",")[0]
+    try:
+        data = bytes.fromhex(hx)
+    except ValueError:
+        data = b""
+    huge = bool(HUGE_LITERAL.search(data))
     if res.startswith("R "):
         try:
             j = json.loads(res[2:])
         except ValueError:
             return [("protocol:bad-json", "unparsable result line: " + res[:200])], {}, None
         stages = j.get("stages", {})
-        fmt = line.split("\t", 1)[0].split(",")[0]
         for f in j.get("findings", []):
             kind, stage, detail = f["kind"], f["stage"], f["detail"]
             if kind == "panic":
                 msg, _, loc = detail.rpartition(" @ ")
                 base = re.sub(r":\d+$", "", loc)
-                base = re.sub(r"^.*/(registry/src/[^/]+/)?", "", base) if "/registry/" in base else re.sub(r"^/repo/", "", base)
+                if "/registry/" in base:
+                    base = re.sub(r"^.*/registry/src/[^/]+/", "", base)
+                    base = re.sub(r"-\d+\.\d+[^/]*/", "/", base, count=1)
+                else:
+                    base = re.sub(r"^.*?/(core|parser|vector|package|lsp|cli)/", r"\1/", base)
                 out.append(("panic:%s:%s" % (base, norm_msg(msg, 60)), "%s panicked: %s" % (stage, detail)))
             elif kind == "span":
                 reason = "exceeds" if "exceeds" in detail else "reversed" if "reversed" in detail else "char-boundary" if "char boundaries" in detail else "order"
-                what = detail.split(":", 1)[0]
-                diag = detail.split("| diagnostic: ", 1)[1] if "| diagnostic: " in detail else what
-                diag = norm_msg(diag.split(":")[0], 40)
-                out.append(("span:%s:%s:%s" % (fmt, reason, diag), "%s: %s" % (stage, detail)))
+                if fmt == "ncl" and not stage.endswith(("deserialize", "deserialize2")):
+                    what = detail.split(":", 1)[0]
+                    diag = detail.split("| diagnostic: ", 1)[1] if "| diagnostic: " in detail else what
+                    out.append(("span:ncl:%s:%s" % (reason, norm_msg(diag.split(":")[0], 40)), "%s: %s" % (stage, detail)))
+                else:
+                    out.append(("span:%s:%s" % (fmt, reason), "%s: %s" % (stage, detail)))
             else:
                 out.append(("%s:%s" % (kind, stage), "%s: %s" % (stage, detail)))
     elif res.startswith("CRASH "):
         j = json.loads(res[6:])
         stage, kind = j["stage"], j["kind"]
-        if kind == "out-of-memory" and stage in EVAL_STAGES:
+        if huge and kind != "stack-overflow":
+            out.append(("resource:huge-number-literal", "a number literal with a huge exponent exhausts memory in stage %s (%s)" % (stage, j["stderr"][-120:].strip())))
+        elif kind == "out-of-memory" and stage in EVAL_STAGES:
             resource = "oom:" + stage
         elif kind == "stack-overflow":
-            sig = overflow_signature(line)
-            out.append(("overflow:%s" % sig, "native stack overflow in stage %s (top frames: %s)" % (stage, sig)))
+            if cls == "mutation:nest200":
+                out.append(("nest200-overflow:%s" % origin, "native stack overflow at nesting depth 200 on an 8 MiB stack, stage %s" % stage))
+            else:
+                sig = overflow_signature(line)
+                out.append(("overflow:%s" % sig, "native stack overflow (unbounded recursion) in stage %s; repeating frames: %s" % (stage, sig)))
         else:
             out.append(("crash:%s:%s" % (kind, stage), "worker died in stage %s: %s %s" % (stage, j["status"], j["stderr"][-200:])))
     elif res.startswith("TIMEOUT "):
         j = json.loads(res[8:])
         stage = j["stage"]
-        if stage in EVAL_STAGES:
+        if huge:
+            out.append(("resource:huge-number-literal", "a number literal with a huge exponent: no answer within %ss in stage %s" % (j["seconds"], stage)))
+        elif stage in EVAL_STAGES:
             resource = "timeout:" + stage
         else:
             sig = hang_signature(line)
-            out.append(("hang:%s:%s" % (stage, sig), "no answer within %ss in stage %s (busy in: %s)" % (j["seconds"], stage, sig)))
+            key = "hang:namereg-select-uniq" if "select_uniq" in sig else "hang:%s" % sig
+            out.append((key, "no answer within %ss in stage %s (busy in: %s)" % (j["seconds"], stage, sig)))
     else:
         out.append(("protocol:missing", "no result line: " + res[:200]))
     return out, stages, resource
@@ -213,7 +258,7 @@ def process(ck, cases, results, replay_mode=False):
     best = {}
     for (fmt, data, cls, origin), res in zip(cases, results):
         line = case_line(fmt, data)
-        fs, stages, resource = findings_of(line, res)
+        fs, stages, resource = findings_of(line, res, cls, origin)
         ck.case(key=hashlib.sha1(data).hexdigest(), nontrivial=len(data) > 0)
         ck.hist("class", cls)
         ck.hist("format", fmt.split(",")[0])
@@ -227,6 +272,7 @@ def process(ck, cases, results, replay_mode=False):
         if "typecheck_strict" in stages:
             ck.hist("ncl_by_class_typecheck_strict", "%s:%s" % (cls.split(":")[0], outcome_class(stages["typecheck_strict"])))
         for key, text in fs:
+            key = skey(key)
             ck.hist("findings_by_key", key)
             cur = best.get(key)
             if cur is None or len(data) < len(cur[1]):
@@ -309,8 +355,10 @@ def generate(ck, scale):
     big = [f for f in files if len(f[2]) > gen.MAX_SEED_FILE]
 
     # the repository's own files, unmodified (every run)
-    for fmt, rel, data in small:
-        cases.append((fmt, data, "corpus-original", rel))
+    every = 1 if scale >= 5 else 6          # quick tier: a sixth of the files, rotating with the seed
+    for i, (fmt, rel, data) in enumerate(small):
+        if i % every == ck.seed % every:
+            cases.append((fmt, data, "corpus-original", rel))
     for fmt, rel, data in big:
         cases.append((fmt + ",light", data, "corpus-original:light", rel))
 
@@ -318,7 +366,7 @@ def generate(ck, scale):
         return int(k * scale)
 
     # (a) grammar
-    for _ in range(n(700)):
+    for _ in range(n(550)):
         g = gen.G(rng.fork())
         cases.append(("ncl", g.program(rng.range(1, 4)).encode(), "grammar:well-typed", "G"))
     for _ in range(n(350)):
@@ -339,7 +387,7 @@ def generate(ck, scale):
         cases.append(("ncl", p.encode(), "grammar:ill-formed", "G+" + "+".join(names)))
 
     # (b) mutations of the corpus
-    for _ in range(n(1200)):
+    for _ in range(n(1100)):
         fmt, rel, data = rng.choice(small)
         try:
             text = data.decode("utf-8")
@@ -385,20 +433,371 @@ def generate(ck, scale):
     return cases
 
 
+# ----------------------------------------------------------------------------- model correspondences
+
+RATS = [("0", "0"), ("1", "1"), ("(-1)", "-1"), ("2", "2"), ("3", "3"), ("(-3)", "-3"), ("7", "7"), ("(-7)", "-7"), ("10", "10"),
+        ("0.5", "1/2"), ("(-0.5)", "-1/2"), ("1.5", "3/2"), ("0.25", "1/4"), ("12.75", "51/4"), ("(-2.5)", "-5/2"), ("1e3", "1000"),
+        ("1e-3", "1/1000"), ("1e20", "100000000000000000000"), ("0.1", "1/10"), ("100", "100")]
+EXPS = RATS + [("63", "63"), ("(-64)", "-64"), ("9223372036854775807", "9223372036854775807"), ("9223372036854775808", "9223372036854775808"),
+               ("(-9223372036854775808)", "-9223372036854775808"), ("(-9223372036854775809)", "-9223372036854775809"), ("1e30", "1" + "0" * 30)]
+IDX = [("0", "0"), ("1", "1"), ("2", "2"), ("3", "3"), ("4", "4"), ("5", "5"), ("6", "6"), ("7", "7"), ("(-1)", "-1"), ("0.5", "1/2"), ("2.5", "5/2"),
+       ("18446744073709551615", "18446744073709551615"), ("18446744073709551616", "18446744073709551616"), ("4294967296", "4294967296"),
+       ("1e30", "1" + "0" * 30)]
+LETTERS = "abcdefgh"
+
+
+def big_exponent(base, e):
+    """would the exact power be unreasonably large?  (2^(2^62) does not fit in memory)"""
+    try:
+        ev = abs(int(e))
+    except ValueError:
+        return False
+    return ev > 64 and base not in ("0", "1", "-1")
+
+
+def ops_cases(rng, n):
+    """[(model case, nickel program, kind)]"""
+    out = []
+    for _ in range(n):
+        k = rng.weighted([("div", 3), ("mod", 3), ("pow", 5), ("substr", 5), ("slice", 5), ("at", 4), ("gen", 2), ("findall", 4)])
+        if k in ("div", "mod"):
+            (a, qa), (b, qb) = rng.choice(RATS), rng.choice(RATS)
+            out.append(("num %s %s %s" % (k, qa, qb), "%s %s %s" % (a, "/" if k == "div" else "%", b), k))
+        elif k == "pow":
+            (a, qa), (b, qb) = rng.choice(RATS), rng.choice(EXPS)
+            if big_exponent(qa, qb):
+                continue
+            out.append(("num pow %s %s" % (qa, qb), "%%pow%% %s %s" % (a, b), k))
+        elif k == "substr":
+            n_ = rng.below(7)
+            (a, qa), (b, qb) = rng.choice(IDX), rng.choice(IDX)
+            out.append(("substr %d %s %s" % (n_, qa, qb), '%%string/substr%% "%s" %s %s' % (LETTERS[:n_], a, b), k))
+        elif k == "slice":
+            n_ = rng.below(6)
+            (a, qa), (b, qb) = rng.choice(IDX), rng.choice(IDX)
+            out.append(("slice %d %s %s" % (n_, qa, qb), "%%array/slice%% %s %s [%s]" % (a, b, ", ".join(str(i) for i in range(n_))), k))
+        elif k == "at":
+            n_ = rng.below(6)
+            (a, qa) = rng.choice(IDX)
+            out.append(("at %d %s" % (n_, qa), "%%array/at%% [%s] %s" % (", ".join(str(i) for i in range(n_)), a), k))
+        elif k == "gen":
+            (a, qa) = rng.choice([x for x in IDX if x[1] in ("0", "1", "2", "5", "-1", "1/2", "5/2", "4294967296", "18446744073709551616", "1" + "0" * 30)])
+            out.append(("gen %s" % qa, "%%array/length%% (%%array/generate%% %s (fun i => i))" % a, k))
+        else:
+            n_ = rng.below(5)
+            subj = "abcd"[:n_]
+            pat = rng.choice(["", "x*", "a", "c", "$", "^", "[a-c]", "y?"])
+            starts = [m.start() for m in re.finditer(pat, subj)]
+            out.append(("findall %d %s" % (n_, ".".join(str(x) for x in starts) or "-"), 'std.string.find_all "%s" "%s"' % (pat, subj), k))
+    return out
+
+
+def rust_ops_outcome(kind, line):
+    """canonical view of the harness `eval` answer, comparable with the model's"""
+    if line.startswith("ERR Panic"):
+        return "PANIC"
+    if line.startswith("ERR DivByZero"):
+        return "ERR division by zero"
+    if line.startswith("ERR"):
+        return "ERR"
+    body = line[3:]
+    if kind in ("div", "mod", "pow"):
+        return "VAL " + body
+    if kind == "substr":
+        m = re.match(r'^"(.*)"$', body)
+        txt = m.group(1) if m else body
+        return "VAL " + (".".join(str(LETTERS.index(c)) for c in txt) or "-")
+    if kind == "slice":
+        nums = re.findall(r"#(-?\d+)", body)
+        return "VAL " + (".".join(nums) or "-")
+    if kind in ("at", "gen"):
+        return "VAL " + body.lstrip("#")
+    if kind == "findall":
+        return "VAL " + (".".join(re.findall(r'"index":#(\d+)', body)) or "-")
+    return body
+
+
+def correspond_ops(ck, exe_model, n):
+    rng = core.SplitMix64(ck.seed * 1000003 + 1010)
+    cases = ops_cases(rng, n)
+    rc1, mout, e1 = core.run_lines(exe_model, [], [c[0] for c in cases], timeout=1200)
+    rc2, rout, e2, = core.run_sharded(core.harness_bin("c10"), ["eval"], ["\t" + c[1] for c in cases], timeout=3600)
+    if rc1 or rc2:
+        ck.obligation("correspondence-run:ops", "internal", False, "rc=%s/%s %s %s" % (rc1, rc2, e1, e2))
+        return
+    for (mc, prog, kind), m, r in zip(cases, mout, rout):
+        ck.case(key="ops:" + mc, nontrivial=True)
+        ck.hist("ops_correspondence", kind)
+        rv = rust_ops_outcome(kind, r)
+        if kind == "findall":
+            mo = re.match(r"orig=(.*) fixed=(.*)$", m)
+            orig, fixed = mo.group(1), mo.group(2)
+            ck.hist("ops_model_outcome", "findall:" + ("PANIC" if orig == "PANIC" else "VAL"))
+            if rv == "PANIC":
+                # direct oracle: the implementation panicked
+                ck.violation(skey("panic:core/src/term/string.rs:We already know that `first_match.start()` occurs on a clust"),
+                             "std.string.find_all panics (empty match at the end of the string): %s" % prog,
+                             {"case": case_line("ncl", prog.encode()), "input": prog, "model": m, "impl": r})
+                if orig != "PANIC":
+                    ck.obligation("correspondence:find_all_index", "correspondence", False, "%s: impl panics, model (unchanged-tree version) says %s" % (prog, orig))
+            elif rv != fixed and rv != orig:
+                ck.obligation("correspondence:find_all_index", "correspondence", False, "%s: impl %s, model orig %s / repaired %s" % (prog, rv, orig, fixed))
+            continue
+        mclass = m.split(" ")[0]
+        ck.hist("ops_model_outcome", kind + ":" + mclass)
+        if rv == "PANIC":
+            ck.violation("panic:primop:" + kind, "primop panicked: %s" % prog, {"case": case_line("ncl", prog.encode()), "input": prog, "model": m, "impl": r})
+            continue
+        if m == "F64":
+            continue            # through f64: any value or a structured error; only Panic is excluded
+        if m.startswith("PANIC"):
+            ck.obligation("correspondence:" + kind, "correspondence", False, "%s: model panics (%s), impl %s" % (prog, m, r))
+        elif m.startswith("ERR"):
+            ok = rv.startswith("ERR") and (("division by zero" in m) == (rv == "ERR division by zero"))
+            if not ok:
+                ck.obligation("correspondence:" + kind, "correspondence", False, "%s: model %s, impl %s" % (prog, m, r))
+        elif m != rv:
+            ck.obligation("correspondence:" + kind, "correspondence", False, "%s: model %s, impl %s (%s)" % (prog, m, rv, r))
+
+
+ESC_VALID = {39, 34, 92, 37, 110, 114, 116}
+
+
+def trace_to_model(trace):
+    """Rust lextrace line -> (model symbols, expected emits, final depth, error info, split checks)"""
+    body, _, pe = trace.partition(" || ")
+    syms, expect, depths = [], [], []
+    lexerr = None
+    splits = []
+    items = body.split(" ") if body else []
+    prev = None
+    for it in items:
+        parts = it.split("|")
+        if len(parts) < 4:
+            return None
+        mode, raws, emitted, depth = parts[0], parts[1], parts[2], parts[3]
+        raw_list = [r for r in raws.split(";") if r]
+        last_span = None
+        for r in raw_list:
+            cls, _, sp = r.partition("@")
+            if cls == "Buffered":
+                syms.append("M:Buffered")
+                continue
+            if sp:
+                a, _, b = sp.partition("-")
+                last_span = (int(a), int(b))
+            c = cls.split(":")
+            if mode == "S" and c[0] == "EscChar":
+                c = ["EscChar", "1" if int(c[1]) in ESC_VALID else "0"]
+            elif mode == "S" and c[0] == "EscAscii":
+                try:
+                    c = ["EscAscii", "1" if int(c[1], 16) <= 0x7F else "0"]
+                except ValueError:
+                    c = ["EscAscii", "0"]
+            elif mode == "M" and c[0] == "Literal":
+                c = ["Literal"]
+            syms.append(mode + ":" + ":".join(c))
+            if mode == "N" and c[0] == "Comment":
+                expect.append("Again")
+                depths.append(None)
+        if emitted == "EOF":
+            # comments (if any) were consumed, nothing else
+            if raw_list and not raw_list[-1].startswith("Comment"):
+                return None
+            continue
+        if raw_list and raw_list[-1].startswith("Comment"):
+            return None
+        cls, _, sp = emitted.partition("@")
+        if cls.startswith("E."):
+            name = cls[2:]
+            lexerr = (name, sp, last_span)
+            expect.append("E." + name)
+        else:
+            c = cls.split(":")
+            if c[0] == "S.EscChar":
+                expect.append("S.EscChar")
+            elif c[0] == "M.Literal":
+                expect.append(("M.Literal", c[1] if len(c) > 1 else None))
+            else:
+                expect.append(cls)
+            if c[0] == "M.Literal" and raw_list and raw_list[-1].split(":")[0] in ("CandInterp", "QCandInterp") and sp and last_span:
+                a, _, b = sp.partition("-")
+                if (int(a), int(b)) != last_span:
+                    prev = (last_span, (int(a), int(b)), len(expect) - 1)
+            elif c[0] == "M.Interp" and prev and raw_list == ["Buffered"] and sp:
+                a, _, b = sp.partition("-")
+                splits.append((prev[0], prev[1], (int(a), int(b)), prev[2]))
+                prev = None
+        depths.append(int(depth))
+    return syms, expect, depths, lexerr, splits, pe
+
+
+def lexer_inputs(ck, n):
+    rng = core.SplitMix64(ck.seed * 1000003 + 1011)
+    files = [f for f in gen.corpus_files() if f[0] == "ncl" and len(f[2]) <= 6000]
+    out = []
+    for _, rel, data in files[::3]:
+        out.append(data.decode("utf-8", "replace"))
+    frag = ['"', 'm%"', '"%', 'm%%"', '"%%', "%{", "%%{", "}", "{", '"%{', '"%%{', "%", "%%", "\\n", "\\q", "\\x41", "\\xff", "\\é", " ", "a", "# c\n", "x-s%\"", "'\"", "\n", "'m%\"", "\r", "\r\n", "1", "e", "'Tag"]
+    while len(out) < n:
+        c = rng.below(4)
+        if c == 0:
+            out.append("".join(rng.choice(frag) for _ in range(rng.range(1, 14))))
+        elif c == 1:
+            g = gen.G(rng.fork())
+            out.append(gen.mutate_tokens(rng, g.program(2))[0])
+        elif c == 2:
+            out.append(gen.mutate_tokens(rng, rng.choice(files)[2].decode("utf-8", "replace"))[0])
+        else:
+            out.append(gen.token_soup(rng, rng.range(1, 20)))
+    return out[:n]
+
+
+def correspond_lexer(ck, exe_model, n):
+    texts = [t for t in lexer_inputs(ck, n)]
+    rc, traces, err = core.run_sharded(core.harness_bin("c10"), ["lextrace"], [t.encode("utf-8", "replace").hex() for t in texts], timeout=3600)
+    if rc:
+        ck.obligation("correspondence-run:lextrace", "internal", False, "rc=%s %s" % (rc, err[-800:]))
+        return
+    model_lines, meta = [], []
+    for text, tr in zip(texts, traces):
+        if tr.startswith("PANIC"):
+            # found by the pipeline as well; here it only means there is no trace to compare
+            ck.hist("lexer_correspondence", "rust-panicked")
+            continue
+        if tr == "NOT-UTF8":
+            continue
+        t = trace_to_model(tr)
+        if t is None:
+            ck.obligation("correspondence:lexer-trace-format", "correspondence", False, "unparsable trace for %r: %s" % (text[:80], tr[:300]))
+            continue
+        syms, expect, depths, lexerr, splits, pe = t
+        model_lines.append("lexv " + " ".join(syms))
+        meta.append((text, tr, t))
+    rc, mout, err = core.run_lines(exe_model, [], model_lines, timeout=1800)
+    if rc:
+        ck.obligation("correspondence-run:lexer-model", "internal", False, "rc=%s %s" % (rc, err[-800:]))
+        return
+    extra, extra_meta = [], []
+    for (text, tr, (syms, expect, depths, lexerr, splits, pe)), m in zip(meta, mout):
+        ck.case(key="lex:" + text, nontrivial=len(syms) > 3)
+        ck.count("lexer_steps_compared", len(syms))
+        if "PANIC" in m or "ERR " in m or m.startswith("DRIVER-ERROR"):
+            ck.obligation("correspondence:lexer-automaton", "correspondence", False, "model fails on %r: %s" % (text[:80], m[:300]))
+            continue
+        steps = m.split(" ") if m else []
+        if len(steps) != len(expect):
+            ck.obligation("correspondence:lexer-automaton", "correspondence", False, "%r: %d model steps for %d expected\nrust  %s\nmodel %s" % (text[:80], len(steps), len(expect), tr[:400], m[:400]))
+            continue
+        bad = None
+        for i, (st, ex, dp) in enumerate(zip(steps, expect, depths)):
+            before, emit, depth = st.split("/")
+            ck.hist("lexer_emits", emit.split(":")[0])
+            if isinstance(ex, tuple):
+                okk = emit.split(":")[0] == "M.Literal" and (":" not in emit or ex[1] is None or emit.split(":")[1] == ex[1])
+            else:
+                okk = emit == ex
+            if not okk or (dp is not None and int(depth) != dp):
+                bad = (i, st, ex, dp)
+                break
+        if bad:
+            ck.obligation("correspondence:lexer-automaton", "correspondence", False, "%r: step %d model %s, rust %s depth %s\nrust  %s" % (text[:80], bad[0], bad[1], bad[2], bad[3], tr[:500]))
+            continue
+        # (d) spans: lexical error -> parse error, split of a candidate interpolation
+        if lexerr and lexerr[2]:
+            name, nums, tok = lexerr
+            extra.append("lexerr %s %s %d %d" % (name, nums.replace("-", ".") or "-", tok[0], tok[1]))
+            extra_meta.append(("lexerr", text, pe, name))
+        for tok, lit, interp, idx in splits:
+            before = steps[idx].split("/")[0]
+            pc = before[1:].rstrip("b")
+            extra.append("split %d %d %s" % (tok[0], tok[1], pc))
+            extra_meta.append(("split", text, (lit, interp), None))
+    if extra:
+        rc, eout, err = core.run_lines(exe_model, [], extra, timeout=600)
+        for (kind, text, obs, name), line, m in zip(extra_meta, extra, eout):
+            ck.hist("span_correspondence", kind + (":" + name if name else ""))
+            if kind == "lexerr":
+                mo = re.match(r"orig=(.*) fixed=(.*)$", m)
+                if not mo:
+                    ck.obligation("correspondence:from_lexical", "correspondence", False, "%s -> %s" % (line, m))
+                    continue
+                pe_name, _, pe_nums = obs[3:].partition(" ")
+                got = pe_nums.strip()
+                cand = {mo.group(1).replace(" ", "-"), mo.group(2).replace(" ", "-")}
+                if pe_name.strip() != {"Generic": "UnexpectedToken"}.get(name, name) or got not in cand:
+                    ck.obligation("correspondence:from_lexical", "correspondence", False, "%r: parser reports %s, model %s (%s)" % (text[:80], obs, m, line))
+            else:
+                lit, interp = obs
+                exp = "%d-%d %d-%d" % (lit[0], lit[1], interp[0], interp[1])
+                if m != exp:
+                    ck.obligation("correspondence:split_spans", "correspondence", False, "%r: lexer spans %s, model %s (%s)" % (text[:80], exp, m, line))
+
+
+# ----------------------------------------------------------------------------- the ledger
+
+def ledger_obligations(ck):
+    """Site list vs committed ledger (in Python, for a readable message; the Coq theorems are what
+    counts), delegated theorem names, statistics."""
+    sites = c10_sites.write_gen()
+    src = open(os.path.join(core.COQ, "Crash", "Ledger.v")).read()
+    body = src[src.index("Definition ledger"):src.index("Definition keys_of")]
+    keys = re.findall(r'^  \("((?:[^"]|"")*)",\s*\n\s+(\w+)', body, flags=re.M)
+    lk = [k.replace('""', '"') for k, _ in keys]
+    sk = [k for k, _ in sites]
+    appeared = [k for k in sk if k not in set(lk)]
+    gone = [k for k in lk if k not in set(sk)]
+    ck.obligation("ledger: every panic-capable site of the mirrored functions is in the committed ledger and conversely (%d sites)" % len(sk),
+                  "translator", not appeared and not gone,
+                  ("appeared: %s\ndisappeared: %s" % (appeared[:20], gone[:20])) if (appeared or gone) else "")
+    kinds = {}
+    for _, c in keys:
+        kinds[c] = kinds.get(c, 0) + 1
+    ck.coverage["ledger_entries_by_coverage"] = kinds
+    ck.coverage["panic_sites_by_file"] = {}
+    for k in sk:
+        f = k.split("::", 1)[0]
+        ck.coverage["panic_sites_by_file"][f] = ck.coverage["panic_sites_by_file"].get(f, 0) + 1
+    missing = []
+    for pid, thm in sorted(set(re.findall(r'Delegated "(\w+)" "(\w+)"', body))):
+        pf = os.path.join(core.COQ, "Props", pid + ".v")
+        txt = core.strip_coq_comments(open(pf).read()) if os.path.exists(pf) else ""
+        if not re.search(r"\bTheorem\s+%s\b" % re.escape(thm), txt):
+            missing.append("%s.%s" % (pid, thm))
+    ck.obligation("ledger: delegated theorems are still stated in coq/Props", "translator", not missing, "missing: " + ", ".join(missing))
+    return appeared, gone
+
+
+def setup_gen():
+    c10_sites.write_gen()
+
+
 # ----------------------------------------------------------------------------- entry points
 
 def run(ck):
-    if not ck.harness(["c10"]):
+    ok_h = ck.harness(["c10"])
+    appeared, gone = ledger_obligations(ck)
+    ck.coq("Props.C10", clean=False)
+    exe_model = ck.model("C10.v")
+    if not ok_h:
         return
-    cor = corpus_cases()
-    scale = 1 if ck.tier == "quick" else 60
+    quick = ck.tier == "quick"
+    scale = 1 if quick else 60
     if os.environ.get("C10_SCALE"):      # development aid only
         scale = float(os.environ["C10_SCALE"])
-    cases = cor + generate(ck, scale)
+    if exe_model:
+        n_ops, n_lex = (1500, 700) if quick else (40000, 20000)
+        if scale < 1:
+            n_ops, n_lex = int(n_ops * scale), int(n_lex * scale)
+        correspond_ops(ck, exe_model, n_ops)
+        correspond_lexer(ck, exe_model, n_lex)
+    cor = corpus_cases()
+    focus = 2 if (appeared or gone) else 1      # a ledger mismatch widens the search
+    cases = cor + generate(ck, scale * focus)
     ck.coverage["corpus_cases"] = len(cor)
     ck.log("pipeline: %d inputs" % len(cases))
     lines = [case_line(f, d) for f, d, _, _ in cases]
-    rc, results, err = run_pipeline(lines, timeout=40 if ck.tier == "quick" else 90)
+    rc, results, err = run_pipeline(lines, timeout=40 if quick else 90)
     if rc:
         ck.obligation("pipeline-run", "internal", False, "rc=%s %s" % (rc, err[-1500:]))
     process(ck, cases, results)
@@ -410,15 +809,34 @@ def run(ck):
         a[1] += t
         a[2] = max(a[2], t)
     ck.coverage["time_per_class_ms (count, total, max)"] = bycls
-    ck.log("time per class (n, total ms, max ms): %s" % bycls)
-    slow = sorted(zip(ms, range(len(ms))), reverse=True)[:12]
-    ck.log("slowest: %s" % [(t, cases[i][2], cases[i][3][:60], show_input(cases[i][1], 60)) for t, i in slow])
     for (fmt, data, cls, origin), res in list(zip(cases, results))[:6]:
         ck.sample({"class": cls, "format": fmt, "input": show_input(data, 160), "result": res[:300]})
-    ck.coverage["rule"] = "see checks/c10_gen.py"
+    ck.coverage["pipeline_inputs"] = len(cases)
+    ck.coverage["rule"] = (
+        "pipeline inputs (one SplitMix64 stream from VERIF_SEED): corpus/C10 witnesses; the repository's own .ncl/.json/.yaml/.toml files and the "
+        "```nickel blocks of doc/**/*.md unmodified (quick: a sample); (a) grammar-generated Nickel programs: well-typed (typed generator over "
+        "numbers, strings with interpolation and multiline strings, booleans, enums, arrays, records with metadata, let/fun/if/match, annotations, std calls), "
+        "ill-typed (same skeleton with sub-terms of another type, wrong annotations, every %primop% of the lexer's token table and every function of "
+        "std.{array,string,number,record,contract,enum,function} applied to a pool of edge values), ill-formed (token-level damage of generated programs); "
+        "(b) token-level mutations (delete/duplicate/swap/replace/insert tokens, unbalance brackets, change string delimiters, insert %{ and }, edge number "
+        "literals, control/non-ASCII characters) and byte-level mutations (bit flips, inserts, deletes, truncation, invalid UTF-8, control bytes) of the corpus "
+        "files; 23 constructs nested 200 deep on an 8 MiB stack (the CLI's main thread) plus nested JSON/YAML/TOML documents; (c) random bytes, random ASCII, "
+        "random token soup, random JSON/YAML/TOML token soup. Every input goes through lex, strict and error-tolerant parsing (term, REPL, type, field-path and "
+        "CLI-assignment parsers), pprint-ast, strict and walk typechecking, eval / eval_full / eval_full_for_export under the H1 step budget, serialisation to "
+        "JSON/YAML/YAML-documents/TOML/text, query (root and the first three fields, with the CLI's pretty_print_cap), eval_record_spine (the evaluation part of "
+        "doc extraction), pretty-printing of ASTs and values, and every error is converted to diagnostics whose labels are checked against their files and "
+        "rendered as text and JSON; data formats go through import, typecheck and std.deserialize. non-trivial = non-empty input; distinct by content hash.")
+    ck.coverage["partial"] = ("whole-pipeline crash-freedom over all byte strings is sampled, not proved; not compiled into the harness: features doc (markdown rendering of "
+                              "extracted documentation; its evaluation part eval_record_spine is run), repl (query printing is reproduced with PrettyPrintCap), format, nix-experimental; "
+                              "resource exhaustion inside evaluation stages (time-outs / out of memory under the step budget, e.g. %pow% 2 1e12, array/generate 4e9) is counted, not reported as a violation")
+    ck.trusted += ["extraction: ExtrOcamlBasic + ExtrOcamlNativeString only", "harness bin c10 (supervisor/worker, catch_unwind, gdb for stack signatures)",
+                   "generators checks/c10_gen.py, site translator checks/c10_sites.py (syntactic)"]
+    ck.assumptions += ["floats are abstract in the number-primop theorems (they hold for every float function)", "logos regex matching is not modelled: the lexer automaton takes the raw tokens as input",
+                       "sources shorter than 4 GiB (span casts to u32)"]
     ck.log("classes: %s" % ck.stats.get("class"))
     ck.log("findings: %s" % ck.stats.get("findings_by_key"))
     ck.log("resource: %s" % ck.stats.get("resource_exhaustion_in_eval_stages (not a violation)"))
+    ck.log("time per class (n, total ms, max ms): %s" % bycls)
 
 
 def replay(ck, path):
@@ -432,10 +850,10 @@ def replay(ck, path):
     else:
         obj = json.load(open(path))
         if "case" not in obj:
-            ck.log("nothing to replay in " + path)
+            ck.log("nothing to replay in " + path + " (no concrete input: " + str(obj.get("what", ""))[:200] + ")")
             return
         fmt, _, hx = obj["case"].partition("\t")
-        cases = [(fmt, bytes.fromhex(hx), "replay", path)]
+        cases = [(fmt, bytes.fromhex(hx), obj.get("class", "replay"), obj.get("origin", path))]
     if not ck.harness(["c10"]):
         return
     rc, results, err = run_pipeline([case_line(f, d) for f, d, _, _ in cases], timeout=120, shards=1)
